@@ -19,9 +19,16 @@
 (*   "block"   coroutine awaiting gate c, then returning Val(c)            *)
 (*   "st"      start_task: task_status.started(SVal(c)); await gate c;     *)
 (*             return Val(c)                                               *)
+(*   "stw"     start_task: await gate c FIRST; then                        *)
+(*             task_status.started(SVal(c)); return Val(c).  The caller of *)
+(*             start_task() is blocked until the gate is opened or the     *)
+(*             task is cancelled (it has no future to cancel yet).         *)
 (*   "stfail"  start_task: raise Boom(Tag(c)) before started()             *)
 (*   "stop0" / "stop1"  coroutine portal.stop(cancel_remaining=0/1),       *)
 (*             returns None (reported as value 0)                          *)
+(*   "stop01"  coroutine: portal.stop(); portal.stop(cancel_remaining=1)   *)
+(*             (graceful stop, then forced stop; a foreign thread cannot   *)
+(*             do this with two calls: the second one is refused)          *)
 (*                                                                         *)
 (* Events (records; what a caller thread / the callable itself can see):   *)
 (*  [ev="issue", c, t, kind]   thread t is about to call start_task_soon / *)
@@ -62,10 +69,12 @@ Val(c) == 100 + c
 SVal(c) == 200 + c
 Tag(c) == 300 + c
 
-SoonKinds == {"sync", "ret", "fail", "block", "stop0", "stop1"}
-StartKinds == {"st", "stfail"}
-StopKinds == {"stop0", "stop1"}
-ValueKinds == {"sync", "ret", "block", "st"}
+SoonKinds == {"sync", "ret", "fail", "block", "stop0", "stop1", "stop01"}
+StartKinds == {"st", "stw", "stfail"}
+StartedKinds == {"st", "stw"}               \* kinds that call task_status.started(SVal(c))
+StopKinds == {"stop0", "stop1", "stop01"}
+CancelStopKinds == {"stop1", "stop01"}      \* ... that (finally) stop with cancel_remaining
+ValueKinds == {"sync", "ret", "block", "st", "stw"}
 
 PortalP0 ==
   [kind   |-> [c \in PC |-> "none"],
@@ -87,6 +96,19 @@ PortalP0 ==
 Names(r) == {n \in DOMAIN r : ~r[n]}      \* the clauses (record of booleans) that are false
 
 Running(p, c) == p.nexec[c] >= 1 /\ p.ended[c] = ""
+
+\* a portal.stop(cancel_remaining=True) has run to its end (the body of such a call returned)
+CancelRemainingRan(p) == \E c \in PC : p.kind[c] \in CancelStopKinds /\ p.ended[c] = "ret"
+
+\* The one case in which a caller may still be inside start_task() at a quiescent point: the callable
+\* waits (gate c not opened by the environment) before it calls started(), its body is still running,
+\* no stop(cancel_remaining=True) has run and the portal has not been left.  (Such a caller has no
+\* future, so nobody can have cancelled the call.)
+StillStarting(p, c) ==
+  /\ p.kind[c] = "stw" /\ Running(p, c)
+  /\ c \notin p.rel
+  /\ ~CancelRemainingRan(p)
+  /\ ~p.exited
 Known(e) == e.c \in PC
 
 PortalApply(p, e) ==
@@ -96,7 +118,7 @@ PortalApply(p, e) ==
          IN [p |-> [p EXCEPT !.kind[e.c] = e.kind, !.ph[e.c] = "issued",
                              !.must = IF p.stopDone THEN @ \cup {e.c} ELSE @,
                              !.stopIssued = @ \/ e.kind \in StopKinds,
-                             !.crq = @ \/ e.kind = "stop1"],
+                             !.crq = @ \/ e.kind \in CancelStopKinds],
              bad |-> Names(cl)]
     [] e.ev = "refused" ->
          LET cl == [RefusedOnlyAfterStop |-> p.stopIssued,
@@ -109,7 +131,7 @@ PortalApply(p, e) ==
     [] e.ev = "started" ->
          LET cl == [RefusedAfterStop     |-> e.c \notin p.must,
                     CallAnsweredOnce     |-> p.ph[e.c] = "issued",
-                    AnsweredStartedValue |-> p.kind[e.c] = "st" /\ e.v = SVal(e.c),
+                    AnsweredStartedValue |-> p.kind[e.c] \in StartedKinds /\ e.v = SVal(e.c),
                     StartedByTheTask     |-> p.nexec[e.c] = 1]
          IN [p |-> [p EXCEPT !.ph[e.c] = "returned"], bad |-> Names(cl)]
     [] e.ev = "startfail" ->
@@ -170,8 +192,9 @@ PortalApply(p, e) ==
          IN [p |-> [p EXCEPT !.exited = TRUE, !.stopDone = TRUE], bad |-> Names(cl)]
     [] e.ev = "quiescent" ->
          LET cl == [\* every call has been answered: refused, or its future / start value handed out
+                    \* (except a start_task() whose callable legitimately has not called started() yet)
                     NothingOrphaned |->
-                        /\ \A c \in PC : p.ph[c] # "issued"
+                        /\ \A c \in PC : p.ph[c] = "issued" => StillStarting(p, c)
                         /\ \A c \in PC : (p.ph[c] = "returned" /\ p.out[c] = "") => Running(p, c)
                         /\ p.exited => \A c \in PC : p.ph[c] = "returned" => p.out[c] # "",
                     \* an accepted cancel() has ended precisely that task
@@ -179,6 +202,10 @@ PortalApply(p, e) ==
                     CancelRefusedOnlyWhenDone |->
                         \A c \in p.ccall \ p.cacc : p.out[c] \in {"val", "exc"},
                     RefusedAfterStop |-> \A c \in p.must : p.ph[c] = "refused",
+                    \* once stop(cancel_remaining=True) has run every remaining task has been cancelled
+                    \* (the callables of this alphabet do not shield themselves)
+                    CancelRemainingCancels |->
+                        CancelRemainingRan(p) => \A c \in PC : ~Running(p, c),
                     \* an accepted call that nobody cancelled has run by now
                     ExactlyOnce |->
                         \A c \in PC : (p.ph[c] = "returned" /\ c \notin p.ccall /\ ~p.crq)
